@@ -223,7 +223,32 @@ def gen_part(pid, tier, rep, d):
     rep.transitions += stats["transitions"]
     rep.extra["round_trip"] = {"writer_behaviours_read_back_by_reference_reader": len(bare)}
     wrapped = wrapped_records(beh, QUICK_REP if quick else REP, rich=(pid == "C01"))
+    if not quick:
+        # every magic xdis accepts, instantiated with the short streams of its class (a layout or format gate that is off
+        # for one magic only -- an alpha, a PyPy variant -- shows here)
+        small = [b for b in beh if len(b["tok"]) <= 2]
+        wrapped += wrapped_records(small, all_magic_table(d), rich=(pid == "C01"))
+        seen_ = set()
+        wrapped = [w for w in wrapped if not (w["id"] in seen_ or seen_.add(w["id"]))]
     return beh, bare, wrapped
+
+
+def all_magic_table(d):
+    """(format version, py3) -> [(version, magic)] for every magic load_module does not refuse"""
+    out = d / "allmagics.json"
+    (d / "noint.json").write_text("[]")
+    lib.run_py(lib.MAIN_HOST, lib.HARNESS / "dump_magics.py", [out, d / "noint.json"], timeout=900)
+    x = json.loads(out.read_text())
+    tab = {}
+    for k, rec in x["accepted"].items():
+        m = int(k)
+        if rec["refused"] or len(rec["tuple"]) != 2 or m in (62135, 3410, 3411) or m in PYPY_MAGICS or tuple(rec["tuple"]) < (1, 0):
+            continue
+        if "Graal" in rec["name"] or "Jython" in rec["name"] or "yston" in rec["name"]:
+            continue
+        par = mwrap.par_of(rec["tuple"], m)
+        tab.setdefault((par["mv"], par["py3"]), []).append((rec["tuple"], m))
+    return tab
 
 
 def ora_gen(rep, d, bare, wrapped, pid, quick):
